@@ -10,7 +10,7 @@ if [ ! -d $LAB/repo ]; then git -C /repo worktree add -q --detach $LAB/repo HEAD
 (cd $LAB/repo && git checkout -q --detach $(git -C /repo rev-parse HEAD) && git reset -q --hard && git clean -fdq)
 rsync -a --delete --exclude target --exclude build.log /verif/sim/ $LAB/sim/
 sed -i "s#\"/repo/#\"$LAB/repo/#g" $LAB/sim/Cargo.toml
-cp /verif/known_findings.json $LAB/verif/ 2>/dev/null
+cp /verif/known_findings.json $LAB/verif/ 2>/dev/null; rsync -a --delete /verif/corpus/ $LAB/verif/corpus/
 export VERIF_HOME=$LAB/verif CARGO_NET_OFFLINE=true
 for item in "$@"; do
   key="${item%%:*}"; props="${item#*:}"
